@@ -291,3 +291,85 @@ pub fn read_page(page_pool: &PagePool, fd: &File, pn: u64) -> std::io::Result<Fa
     fd.read_exact_at(&mut page[..], pn * PAGE_SIZE as u64)?;
     Ok(page)
 }
+
+/// Verification hook (compiled only with `--cfg nomt_verif`): an [`IoHandle`] whose commands are
+/// not performed by an I/O pool but parked; the caller decides when and in which order each of
+/// them completes, and with which page content.
+#[cfg(nomt_verif)]
+pub mod verif_scripted {
+    use super::{CompleteIo, IoHandle, IoKind, IoPacket};
+    use crossbeam_channel::{Receiver, Sender};
+    use std::sync::Arc;
+
+    pub struct ScriptedIo {
+        // the only strong reference: the handle's `send` fails once this is dropped
+        _sender: Arc<Sender<IoPacket>>,
+        packets: Receiver<IoPacket>,
+        pending: Vec<IoPacket>,
+    }
+
+    impl ScriptedIo {
+        pub fn new() -> (ScriptedIo, IoHandle) {
+            let (sender, packets) = crossbeam_channel::unbounded();
+            let sender = Arc::new(sender);
+            let (completion_sender, completion_receiver) = crossbeam_channel::unbounded();
+            let handle = IoHandle {
+                sender: Arc::downgrade(&sender),
+                completion_sender,
+                completion_receiver,
+            };
+            (
+                ScriptedIo {
+                    _sender: sender,
+                    packets,
+                    pending: Vec::new(),
+                },
+                handle,
+            )
+        }
+
+        fn poll(&mut self) {
+            while let Ok(packet) = self.packets.try_recv() {
+                self.pending.push(packet);
+            }
+        }
+
+        /// The commands submitted and not yet completed, in submission order:
+        /// `(user_data, fd, page number, is a read)`.
+        pub fn pending(&mut self) -> Vec<(u64, i32, u64, bool)> {
+            self.poll();
+            self.pending
+                .iter()
+                .map(|p| match &p.command.kind {
+                    IoKind::Read(fd, pn, _) => (p.command.user_data, *fd, *pn, true),
+                    IoKind::Write(fd, pn, _)
+                    | IoKind::WriteArc(fd, pn, _)
+                    | IoKind::WriteRaw(fd, pn, _) => (p.command.user_data, *fd, *pn, false),
+                })
+                .collect()
+        }
+
+        /// Complete the `j`th pending command: a read gets `bytes` as its page (if given), the
+        /// completion carries `result`. `false`: no such command.
+        pub fn complete(
+            &mut self,
+            j: usize,
+            bytes: Option<&[u8]>,
+            result: std::io::Result<()>,
+        ) -> bool {
+            self.poll();
+            if j >= self.pending.len() {
+                return false;
+            }
+            let mut packet = self.pending.remove(j);
+            if let (IoKind::Read(_, _, page), Some(bytes)) = (&mut packet.command.kind, bytes) {
+                page[..].copy_from_slice(bytes);
+            }
+            let _ = packet.completion_sender.send(CompleteIo {
+                command: packet.command,
+                result,
+            });
+            true
+        }
+    }
+}
